@@ -462,6 +462,11 @@ class FnAnalysis(Analysis):
             st.env[target.id] = v
             if st.lenge:
                 st.lenge = frozenset(p for p in st.lenge if target.id not in p)
+            if st.members:
+                st.members = frozenset(p for p in st.members if p[0] != target.id)
+                if isinstance(value_node, ast.Name):
+                    # y = x: what is known about membership of x holds for y
+                    st.members = st.members | {(target.id, c) for k, c in st.members if k == value_node.id}
         elif isinstance(target, (ast.Tuple, ast.List)):
             elts = None
             if isinstance(value_node, (ast.Tuple, ast.List)) and len(value_node.elts) == len(target.elts):
@@ -610,7 +615,7 @@ class FnAnalysis(Analysis):
                 if pos and ik and ck:
                     st.members = st.members | {(ik, ck)}
                 elif pos and ik:
-                    q = self.enum_member_list(r)
+                    q = self.enum_member_list(r, st)
                     if q:
                         st.members = st.members | {(ik, "enum:" + q)}
                 return
@@ -663,11 +668,19 @@ class FnAnalysis(Analysis):
                     st.env[name] = v.but(lb=max(v.lb, c), exact=c)
             # None-ness is irrelevant here
 
-    def enum_member_list(self, e) -> Optional[str]:
+    def enum_member_list(self, e, st=None) -> Optional[str]:
         """`X.list()` (a classmethod returning list(cls)) / `list(X)` / `X` for an enum class X -> X's qualified name."""
         target = None
+        _resolve = self.prog.resolve_expr
+
+        class _P:          # resolve through a local alias of a class (modes = AirConditioner.BreezeMode)
+            @staticmethod
+            def resolve_expr(m, x, c):
+                if st is not None and isinstance(x, ast.Name) and x.id in st.env and st.env[x.id].kind == "cls" and len(st.env[x.id].classes) == 1:
+                    return self.prog.classes.get(next(iter(st.env[x.id].classes)))
+                return _resolve(m, x, c)
         if isinstance(e, ast.Call) and isinstance(e.func, ast.Attribute) and not e.args:
-            r = self.prog.resolve_expr(self.m, e.func.value, self.fn.cls)
+            r = _P.resolve_expr(self.m, e.func.value, self.fn.cls)
             if isinstance(r, ClassInfo) and self.prog.is_enum(r):
                 f = self.prog.lookup_method(r, e.func.attr)
                 if f is not None and f.kind == "classmethod":
@@ -675,11 +688,11 @@ class FnAnalysis(Analysis):
                     if len(rets) == 1 and norm(rets[0].value) == f"list({f.params[0]})":
                         target = r
         elif isinstance(e, ast.Call) and isinstance(e.func, ast.Name) and e.func.id in ("list", "tuple", "set") and len(e.args) == 1:
-            r = self.prog.resolve_expr(self.m, e.args[0], self.fn.cls)
+            r = _P.resolve_expr(self.m, e.args[0], self.fn.cls)
             if isinstance(r, ClassInfo) and self.prog.is_enum(r):
                 target = r
         elif isinstance(e, (ast.Name, ast.Attribute)):
-            r = self.prog.resolve_expr(self.m, e, self.fn.cls)
+            r = _P.resolve_expr(self.m, e, self.fn.cls)
             if isinstance(r, ClassInfo) and self.prog.is_enum(r):
                 target = r
         return target.qual if target else None
@@ -993,6 +1006,8 @@ class FnAnalysis(Analysis):
                 return self.slice_val(base, ast.Slice(lower=mk(fs.start), upper=mk(fs.stop), step=mk(fs.step)), st, self.key_of(e.value))
         idx = self.val(e.slice, st)
         k = self.cint(e.slice)
+        if base.kw is not None and isinstance(e.slice, ast.Constant) and isinstance(e.slice.value, str) and e.slice.value in dict(base.kw):
+            return dict(base.kw)[e.slice.value]          # a key the mapping was built with
         if idx.kind == "slice" and not idx.taint:
             return Val(taint=base.taint, kind=base.kind if base.kind in ("bytes", "list", "str") else "any")      # x[slice_object]: never an IndexError
         if base.kind in ("bytes", "list", "str", "any", "strlist") or base.taint:
@@ -1170,7 +1185,10 @@ class FnAnalysis(Analysis):
             vv = self.val(v, st)
             elem = vv if elem is None else join_val(elem, vv)
         splat = any(k is None for k in e.keys)
-        return Val(t if not splat else (t or deep_taint(elem)), "map", elem=elem)
+        kw = None
+        if not splat and e.keys and all(isinstance(k, ast.Constant) and isinstance(k.value, str) for k in e.keys) and len(e.keys) <= 32:
+            kw = tuple((k.value, self.val(v, st)) for k, v in zip(e.keys, e.values))          # a literal mapping: its keys are known
+        return Val(t if not splat else (t or deep_taint(elem)), "map", elem=elem, kw=kw)
 
     def v_JoinedStr(self, e, st):
         t = False
@@ -1716,6 +1734,9 @@ class FnAnalysis(Analysis):
                 return Val(taint, "str")
             if mname in BYTES_RESULT_METHODS:
                 return Val(taint, "bytes")
+            if mname == "_asdict" and not argv and recv.built and recv.fields and not any(k.startswith("#") for k, _v in recv.fields):
+                # NamedTuple._asdict(): the mapping of its field names to its fields
+                return Val(recv.taint, "map", kw=tuple(recv.fields))
             if mname == "get" and recv.elem is not None and recv.elem.kind in ("bmeth", "cls"):
                 # a dispatch table of bound methods / classes: any of its values, or the default (None when absent)
                 dflt = argv[1] if len(argv) > 1 else kwv.get("default")
